@@ -179,11 +179,28 @@ def run(ctx: Ctx, env):
             continue
         n_pairs += 1
         same = a is not None and b is not None and a[0].qual == b[0].qual and a[1] is b[1]
-        if name.startswith("_") and (a is None or b is None):
-            continue  # private helpers of one flavour (foreign-key substitution) are fine
+        if name.startswith("_"):
+            continue  # private helpers / hooks may differ per flavour; what they do to the public handlers is compared below
+        if not same and a is not None and b is not None:
+            # different code for the two flavours: acceptable only if it builds the same constructs on every path
+            same = _same_results(H, name, ORM, CORE)
         ctx.check(same, "R5.orm-core-same-handler", name,
-                  f"{name} resolves to {a[0].qual if a else 'nothing'} for the ORM visitor and {b[0].qual if b else 'nothing'} for the Core visitor: the two "
-                  "entry styles can now translate the same filter differently", (a or b)[0].module.loc((a or b)[1]))
+                  f"{name} resolves to {a[0].qual if a else 'nothing'} for the ORM visitor and {b[0].qual if b else 'nothing'} for the Core visitor "
+                  "and the two build different constructs: the entry styles can now translate the same filter differently",
+                  (a or b)[0].module.loc((a or b)[1]))
+    # shared handlers can still behave differently through an overridden private hook: compare what they build
+    n_cmp = 0
+    for name in sorted(names):
+        if name in RESOLUTION_HANDLERS or name.startswith("_") or not (name.startswith("visit_") or name.startswith("func_")):
+            continue
+        a, b = repo.lookup_method(ORM, name), repo.lookup_method(CORE, name)
+        if a is None or b is None or not (a[0].qual == b[0].qual and a[1] is b[1]):
+            continue
+        n_cmp += 1
+        ctx.check(_same_results(H, name, ORM, CORE), "R5.orm-core-same-result", name,
+                  f"{name} is shared by both visitors but builds different constructs for ORM and Core (an overridden helper changes it)",
+                  a[0].module.loc(a[1]))
+    ctx.floor("shared handlers compared by result", n_cmp, 40)
     ctx.floor("sibling handler pairs", n_pairs, 50)
     # both visit_Compare: op(left, right) from the same children; ORM may substitute foreign keys on both operands
     for d in ("Eq", "Lt", "In"):
@@ -311,3 +328,34 @@ def _check_function(f: str, n: int, t) -> Optional[str]:
             return None
         return "UNKNOWN"
     return "UNKNOWN"
+
+
+def _same_results(H, name: str, orm: str, core: str) -> bool:
+    """Do the two visitors build the same constructs (per path condition) in this handler? Visitor labels are erased."""
+    import re as _re
+
+    def results(vcls):
+        out = set()
+        if name.startswith("visit_"):
+            kind = name[len("visit_"):]
+            cases = [(k, d) for (k, d) in H.kind_cases() if k == kind]
+            paths = []
+            for k, d in cases:
+                paths += [(d, p) for p in (H.eval_visit(vcls, k, d) or [])]
+        else:
+            paths = []
+            funcs = H.functions_for_handler(vcls, name)
+            counts = set()
+            for f in funcs:
+                lo, hi = H.table[f]
+                counts |= set(range(lo, hi + 1))
+            for n in sorted(counts):
+                paths += [(n, p) for p in H.eval_func(vcls, name, n)]
+        for tag, p in paths:
+            v = repr(T.norm(p.value)) if p.outcome == "return" else repr(p.value)
+            text = f"{tag}|{p.outcome}|{p.cond_str()}|{v}"
+            text = _re.sub(r"AstToSqlAlchemy(Orm|Core)Visitor", "V", text)
+            out.add(text)
+        return out
+
+    return results(orm) == results(core)
